@@ -115,11 +115,27 @@ func (w *depWorld) depositTx(c *depCase, tag uint32, coinbase bool) ([]byte, uin
 	if has(c.Devs, "script:other-key") {
 		key = w.keyOther
 	}
+	otherVersion := func(scr []byte) []byte {
+		// the right 32-byte commitment under the other witness version (p2wsh <-> taproot form)
+		out := append([]byte{}, scr...)
+		if len(out) == 34 {
+			if out[0] == 0 {
+				out[0] = 0x51
+			} else {
+				out[0] = 0
+			}
+		}
+		return out
+	}
 	magic := []byte("GTT0")
 	var outs []sim.BtcOut
 	switch c.Kind {
 	case "v0-secp", "v0-schnorr":
-		outs = []sim.BtcOut{{Value: c.Value, Script: sim.RefDepositScriptV0(key, w.evm)}, {Value: 777, Script: sim.RefSystemScript(w.keySecp)}}
+		scr := sim.RefDepositScriptV0(key, w.evm)
+		if has(c.Devs, "script:other-witness-version") {
+			scr = otherVersion(scr)
+		}
+		outs = []sim.BtcOut{{Value: c.Value, Script: scr}, {Value: 777, Script: sim.RefSystemScript(w.keySecp)}}
 	case "v1-secp":
 		o0, o1 := sim.RefDepositScriptsV1(key, magic, w.evm)
 		outs = []sim.BtcOut{{Value: c.Value, Script: o0}, {Value: 0, Script: o1}}
@@ -251,7 +267,7 @@ func (w *depWorld) build(c *depCase) *depBuilt {
 			header = gblk.Header
 			dep.TxIndex = 2
 			dep.IntermediateProof = gblk.Proof(2)
-		case "script:other-key", "hdr:dup-height", "batch:after-genuine":
+		case "script:other-key", "script:other-witness-version", "hdr:dup-height", "batch:after-genuine":
 		case "evm:other":
 			dep.EvmAddress = w.evm2
 		case "evm:19":
@@ -486,7 +502,7 @@ var c03Devs = []string{
 	"hdr:other-block", "hdr:bitflip", "hdr:79", "hdr:81", "hdr:unvoted-height", "hdr:voted-other-hash", "hdr:missing-for-height", "hdr:dup-height",
 	"out:wrong", "out:range", "ver:2", "ver:swap", "key:unregistered", "key:other-registered", "script:other-key", "key:nil",
 	"evm:other", "evm:19", "tx:size64", "tx:oversize", "tx:trailing-byte", "dup:in-batch", "nil:deposit", "sender:other",
-	"batch:after-genuine", "hdr:first-items-header",
+	"batch:after-genuine", "hdr:first-items-header", "script:other-witness-version",
 }
 
 func c03Cases(thorough bool) []*depCase {
